@@ -151,6 +151,9 @@ func c06MapMonitorScenarios(tier string) []Scenario {
 			out = append(out, c06PipelinedDependentsFirst("attach", sec, i%2 == 1, D))
 		}
 	}
+	for i, k := range []string{"readdir", "readfile", "stat", "walk"} {
+		out = append(out, c06BehindVersion(k, 300, 8216, i%2 == 0, D+1), c06BehindVersion(k, 8216, 300, i%2 == 1, D+1))
+	}
 	return out
 }
 
@@ -283,5 +286,77 @@ func c06PipelinedDependentsFirst(first, second string, dotu bool, D int) Scenari
 		base, root = scratchDir("c06")
 		defer os.RemoveAll(base)
 		return runVs(rc, &VsSpec{Name: name, Body: body, Check: check, P: D, Delay: true})
+	}}
+}
+
+// c06BehindVersion: a request pipelined directly in front of a Tversion that asks for
+// another msize than the session had (bigger or smaller): every schedule of the
+// request's goroutine against the receive loop executing the Tversion.
+func c06BehindVersion(kind string, msize0, msize1 uint32, dotu bool, D int) Scenario {
+	var base, root string
+	name := fmt.Sprintf("ufs %s pipelined in front of a Tversion msize %d->%d dotu=%v", kind, msize0, msize1, dotu)
+	body := func() {
+		os.RemoveAll(root)
+		makeStdTree(root)
+		h := newUfsH(root, 8216, dotu)
+		c := h.Connect()
+		ver := "9P2000"
+		if dotu {
+			ver = "9P2000.u"
+		}
+		c.Version(msize0, ver)
+		un := ""
+		if !dotu {
+			un = go9p.OsUsers.Uid2User(os.Geteuid()).Name()
+		}
+		att := tattach(1, 0, wire.NOFID, un, uint32(os.Geteuid()), dotu)
+		c.Rpc(att)
+		var m *wire.Msg
+		big := msize1
+		if msize0 > big {
+			big = msize0
+		}
+		switch kind {
+		case "readdir":
+			c.Rpc(twalk(2, 0, 5))
+			c.Rpc(&wire.Msg{Type: wire.Topen, Tag: 2, Fid: 5, Mode: 0})
+			m = &wire.Msg{Type: wire.Tread, Tag: 3, Fid: 5, Offset: 0, Count: big - 24}
+		case "readfile":
+			c.Rpc(twalk(2, 0, 5, "f"))
+			c.Rpc(&wire.Msg{Type: wire.Topen, Tag: 2, Fid: 5, Mode: 0})
+			m = &wire.Msg{Type: wire.Tread, Tag: 3, Fid: 5, Offset: 0, Count: big - 24}
+		case "stat":
+			c.Rpc(twalk(2, 0, 5, "d"))
+			m = &wire.Msg{Type: wire.Tstat, Tag: 3, Fid: 5}
+		case "walk":
+			m = twalk(3, 0, 5, "d", "h")
+		}
+		vs.Window(true)
+		c.Send(dotu, m, &wire.Msg{Type: wire.Tversion, Tag: wire.NOTAG, Msize: msize1, Version: ver})
+		vs.Idle()
+		vs.Window(false)
+		// the server is still there: the new session works, and so does a new connection
+		att.Tag, att.Fid = 7, 9 // (the library keeps the fids of the old session)
+		if r := c.Rpc(att); r == nil || r.Type != wire.Rattach {
+			vs.Fail("after the Tversion the connection no longer answers a Tattach: %v", r)
+		}
+		c2 := h.Connect()
+		if r := c2.Version(8216, ver); r == nil || r.Type != wire.Rversion {
+			vs.Fail("a new connection is not served: %v", r)
+		}
+	}
+	check := func(x *vs.Exec) *Viol {
+		for _, p := range x.Panics {
+			return &Viol{Sig: "C06/panic/" + p.Frame + "/" + panicClass(p.Value), Msg: "a well-formed request pipelined in front of a Tversion makes the server panic: " + p.Value + "\n" + trimStack(p.Stack)}
+		}
+		if len(x.Fails) > 0 {
+			return &Viol{Sig: "C06/liveness/" + sigWords(x.Fails[0]), Msg: x.Fails[0]}
+		}
+		return nil
+	}
+	return Scenario{Name: name, Run: func(rc *RunCtx) *Result {
+		base, root = scratchDir("c06")
+		defer os.RemoveAll(base)
+		return runVs(rc, &VsSpec{Name: name, Body: body, Check: check, P: D})
 	}}
 }
